@@ -1,15 +1,19 @@
 (** C14 — Spyne's event machinery.  Definitions only.
 
-    * [oset] / [emgr]          spyne/util/oset.py, spyne/evmgr.py
+    * [oset] / [emgr]          spyne/util/oset.py, spyne/evmgr.py (shapes checked by the translator)
     * [base_event_handlers]    spyne/service.py ServiceBaseMeta.__get_base_event_handlers
     * [world], [regop]         registration programs: class statements and add_listener calls
     * [fire_world]             spyne/context.py MethodContext.fire_event (manager order generated)
-    * [stmt], [exec]           a small statement language in which the request pipeline
-                               (server/_base.py, application.py, server/wsgi.py, context.py) is
-                               written; the pipeline programs themselves are GENERATED from the
-                               Python source into Gen/Pipeline.v on every run
+    * [stmt], [exec]           a small statement language (try/except with class dispatch, raise,
+                               return, calls, tests and assignments of the context attributes the
+                               control flow reads, fire_event) in which the request pipeline is
+                               written; the pipeline programs themselves (server/_base.py,
+                               application.py, server/http.py, server/wsgi.py, context.py) are
+                               GENERATED from the Python source into Gen/Pipeline.v on every run
+                               by harness/translate/pipeline.py
     * library steps            the protocol-side steps the pipeline calls, written by hand in
-                               the same language (bottom of this file) *)
+                               the same language (bottom of this file); whether they return or
+                               raise is an input ([scen]) *)
 From SpyneV Require Export Base.Prelude.
 
 (* ------------------------------------------------------------------ event names *)
